@@ -20,6 +20,9 @@ import Mathlib.Data.List.Range
   * `vector_route_no_spill`      a vector store is issued only on a unit-step run and all its lanes are
                                  elements of that run (never past the end of the selected row);
                                  `odo_vector_only_if` the n-D views store vectors only when `_is_vectorisable`.
+  * `norm_admissible`            every view class maps every admissible encoding (plain, `last`-relative, both ends from the end) of
+                                 `0 ≤ f < l ≤ n, s ≥ 1` to the axis (f, s, ⌈(l-f)/s⌉) whose elements lie inside the parent axis
+                                 (`seq::size` with C++ truncating `/ %`): the hypotheses of the write theorems hold for them.
   * `writes_seq`                 sequences of writes compose: the memory after a history is the fold of the
                                  per-write specifications.
   * `write_correct_nd`           n-D views of EVERY rank (odometer; equal-order binders and scalar right-hand sides; vector and
@@ -331,6 +334,110 @@ theorem write_correct_nd_flat (V : Nat) (hV : 0 < V) (dims : List Nat) (axs : Li
 example : InBounds [2, 4, 6] [⟨0, 1, 2⟩, ⟨1, 2, 2⟩, ⟨2, 1, 4⟩] := by
   simp only [InBounds]; decide
 
+/-! ### range normalisation: from the caller's triple to the normalised axis -/
+
+/-- the admissible encodings of the slice `f, f+s, … < l` (`0 ≤ f < l ≤ n`, `s ≥ 1`) of an axis of `n` elements:
+    plain, `last`-relative end, both ends counted from the end, and the integer index `-1` (not for the dynamic 1-D view) -/
+inductive Enc (n f l s : Nat) : Seq → Prop
+  | plain : Enc n f l s ⟨f, l, s⟩
+  | lastRel : Enc n f l s ⟨f, (l : Int) - (n + 1), s⟩
+  | bothRel : Enc n f l s ⟨(f : Int) - (n + 1), (l : Int) - (n + 1), s⟩
+
+theorem size_nat (f l s : Nat) (hfl : f < l) (hs : 0 < s) :
+    (Seq.size ⟨f, l, s⟩).toNat = (l - f + (s - 1)) / s := by
+  unfold Seq.size
+  simp only
+  have hr : ((l : Int) - f) = ((l - f : Nat) : Int) := by omega
+  rw [hr]
+  generalize l - f = d
+  rw [Int.tmod_eq_emod_of_nonneg (by omega), Int.tdiv_eq_ediv_of_nonneg (by omega)]
+  have hmodc : ((d : Int) % (s : Int)) = ((d % s : Nat) : Int) := by norm_cast
+  have hdivc : ((d : Int) / (s : Int)) = ((d / s : Nat) : Int) := by norm_cast
+  rw [hmodc, hdivc]
+  obtain ⟨q, r, rfl, hrs⟩ : ∃ q r, d = s * q + r ∧ r < s := ⟨d / s, d % s, (Nat.div_add_mod d s).symm, Nat.mod_lt d hs⟩
+  have hq : (s * q + r) / s = q := by rw [Nat.mul_add_div hs, Nat.div_eq_of_lt hrs, Nat.add_zero]
+  have hm : (s * q + r) % s = r := by rw [Nat.mul_add_mod, Nat.mod_eq_of_lt hrs]
+  rw [hm, hq]
+  by_cases hr0 : r = 0
+  · subst hr0
+    simp only [Int.natCast_zero, if_true, Int.toNat_natCast, Nat.add_zero]
+    rw [Nat.mul_add_div hs, Nat.div_eq_of_lt (by omega), Nat.add_zero]
+  · have hne : ¬ ((r : Int) = 0) := by omega
+    simp only [hne, if_false]
+    have : ((q : Int)) + 1 = ((q + 1 : Nat) : Int) := by push_cast; rfl
+    rw [this, Int.toNat_natCast]
+    have h2 : s * q + r + (s - 1) = s * (q + 1) + (r - 1) := by
+      rw [Nat.mul_add, Nat.mul_one]; omega
+    rw [h2, Nat.mul_add_div hs, Nat.div_eq_of_lt (by omega), Nat.add_zero]
+
+theorem normN_enc (n f l s : Nat) (hfl : f < l) (hln : l ≤ n) (q : Seq) (h : Enc n f l s q) :
+    normN n q = ⟨f, l, s⟩ := by
+  cases h with
+  | plain => unfold normN; simp only; split <;> first | omega | (split <;> first | omega | (split <;> first | omega | rfl))
+  | lastRel =>
+    unfold normN; simp only
+    have h1 : (l : Int) - (n + 1) < 0 := by omega
+    simp only [h1, true_and, Int.natCast_nonneg, ge_iff_le, if_true]
+    congr 1; omega
+  | bothRel =>
+    unfold normN; simp only
+    have h1 : (l : Int) - (n + 1) < 0 := by omega
+    have h2 : ¬ ((f : Int) - (n + 1) ≥ 0) := by omega
+    have h3 : (f : Int) - (n + 1) < 0 := by omega
+    have h4 : ¬ ((l : Int) - (n + 1) = 0) := by omega
+    simp only [h1, h2, h3, h4, and_false, false_and, and_self, if_false, if_true]
+    congr 1 <;> omega
+
+theorem norm1_enc (n f l s : Nat) (hfl : f < l) (hln : l ≤ n) (q : Seq) (h : Enc n f l s q) :
+    norm1 n q = ⟨f, l, s⟩ := by
+  cases h with
+  | plain =>
+    unfold norm1; simp only
+    have h1 : ¬ ((l : Int) < 0) := by omega
+    have h2 : ¬ ((f : Int) < 0) := by omega
+    simp [h1, h2]
+  | lastRel =>
+    unfold norm1; simp only
+    have h1 : (l : Int) - (n + 1) < 0 := by omega
+    have h2 : ¬ ((f : Int) < 0) := by omega
+    simp only [h1, h2, if_true, if_false]
+    congr 1; omega
+  | bothRel =>
+    unfold norm1; simp only
+    have h1 : (l : Int) - (n + 1) < 0 := by omega
+    have h3 : (f : Int) - (n + 1) < 0 := by omega
+    simp only [h1, h3, if_true]
+    congr 1 <;> omega
+
+/-- **norm_admissible**: every view class maps every admissible encoding to the axis `first = f`, `step = s`,
+    `ext = ⌈(l-f)/s⌉`, all of whose elements lie below `l ≤ n` -/
+theorem norm_admissible (c : Cls) (n f l s : Nat) (hfl : f < l) (hln : l ≤ n) (hs : 0 < s) (q : Seq) (h : Enc n f l s q) :
+    let a := Ax.ofSeq (c.norm n q)
+    a.first = f ∧ a.step = s ∧ a.ext = (l - f + (s - 1)) / s ∧ 0 < a.ext ∧ ∀ k < a.ext, k * a.step + a.first < n := by
+  intro a
+  have hq : c.norm n q = ⟨f, l, s⟩ := by
+    cases c <;> first | exact norm1_enc n f l s hfl hln q h | exact normN_enc n f l s hfl hln q h
+  have ha : a = ⟨f, s, (l - f + (s - 1)) / s⟩ := by
+    show Ax.ofSeq (c.norm n q) = _
+    rw [hq]; unfold Ax.ofSeq
+    simp only [Int.toNat_natCast]
+    rw [size_nat f l s hfl hs]
+  rw [ha]
+  refine ⟨rfl, rfl, rfl, ?_, ?_⟩
+  · show 0 < (l - f + (s - 1)) / s
+    apply Nat.div_pos <;> omega
+  · intro k hk
+    show k * s + f < n
+    have hk' : k < (l - f + (s - 1)) / s := hk
+    have := (Nat.lt_div_iff_mul_lt hs).1 hk'
+    have h2 : k * s + s ≤ l - f + (s - 1) := by
+      have : (k + 1) * s ≤ l - f + (s - 1) := by
+        have h3 : k + 1 ≤ (l - f + (s - 1)) / s := hk'
+        exact (Nat.le_div_iff_mul_le hs).1 h3
+      rw [Nat.add_mul, Nat.one_mul] at this; exact this
+    omega
+
+example : Enc 9 2 9 3 ⟨2, -1, 3⟩ := Enc.lastRel
 /-- **writes_seq**: a history of writes, each with pairwise distinct stored positions, leaves the memory
     obtained by folding the per-write specifications -/
 theorem writes_seq (ws : List (WOp × (Nat → α) × List Iter)) (m : Nat → α)
